@@ -175,6 +175,15 @@ func main() {
 				c.Failf("layout-dependent", "%s gives %v for the line with spare capacity behind it and %v otherwise | %v", what, o2, out, in)
 				return
 			}
+			// the simplifier's exported fields are its configuration: set after construction they count like a value
+			// given to the constructor
+			if re := simplify.DouglasPeucker(t + 7.25); true {
+				re.Threshold = t
+				if o2 := re.LineString(in.Clone()); !same(o2, out) {
+					c.Failf("field-ignored", "DouglasPeucker(%v) with Threshold then set to %v gives %v, DouglasPeucker(%v) gives %v | %v", t+7.25, t, o2, t, out, in)
+					return
+				}
+			}
 			if !basic("dp-subsequence", out, what) {
 				return
 			}
@@ -225,6 +234,13 @@ func main() {
 					return
 				}
 			}
+			if rr := simplify.Radial(halfDistance, t+7.25); true {
+				rr.Threshold, rr.DistanceFunc = t, dist
+				if o2 := rr.LineString(in.Clone()); !same(o2, out) {
+					c.Failf("field-ignored", "Radial(distance/2, %v) with DistanceFunc and Threshold then set to (distance, %v) gives %v, Radial(distance, %v) gives %v | %v", t+7.25, t, o2, t, out, in)
+					return
+				}
+			}
 			if !basic("radial-subsequence", out, what) {
 				return
 			}
@@ -257,6 +273,13 @@ func main() {
 			for _, k := range scales {
 				if o2 := simplify.VisvalingamThreshold(t * k * k).LineString(refgeom.Scale(in, k).(orb.LineString)); !refgeom.Equal(o2, refgeom.Scale(out, k)) {
 					c.Failf("scaling", "%s: line scaled by %v and threshold by its square give %v, unscaled %v | %v", what, k, o2, out, in)
+					return
+				}
+			}
+			if vv := simplify.Visvalingam(t+7.25, 5); true {
+				vv.Threshold, vv.ToKeep = t, 0
+				if o2 := vv.LineString(in.Clone()); !same(o2, out) {
+					c.Failf("field-ignored", "Visvalingam(%v, 5) with Threshold and ToKeep then set to (%v, 0) gives %v, VisvalingamThreshold(%v) gives %v | %v", t+7.25, t, o2, t, out, in)
 					return
 				}
 			}
